@@ -247,11 +247,11 @@ def rect(rc):
 
 
 def collector(b, n, kinds=("int", "real", "int")):
-    fields = {}
-    for ci, name in enumerate(COLS):
-        mk = b.int if kinds[ci] == "int" else b.real
-        fields[name] = b.list([mk(f"{name}{i}") for i in range(n)])
-    return b.obj(RC, _columns=b.list(COLS), _array=False, **fields)
+    """a collector with n rows of symbolic cells, built by the real constructor (so that it has every attribute the class
+    gives its instances)"""
+    mk = [b.int if k == "int" else b.real for k in kinds]
+    rows = [b.list([mk[ci](f"{name}{i}") for ci, name in enumerate(COLS)]) for i in range(n)]
+    return b.new(RC, b.list(list(COLS)), b.list(rows))
 
 
 @contract(RC + ".append", "C20", name="RowCollector.append[list]")
@@ -323,7 +323,7 @@ def _(c):
         for rev in (False, True):
             def pre_t(b, keys=keys, rev=rev):
                 n = len(keys)
-                rc = b.obj(RC, _columns=b.list(COLS), _array=False, x=b.list([b.int(f"x{i}") for i in range(n)]), y=b.list(list(keys)), z=b.list([b.int(f"z{i}") for i in range(n)]))
+                rc = b.new(RC, b.list(list(COLS)), b.list([b.list([b.int(f"x{i}"), keys[i], b.int(f"z{i}")]) for i in range(n)]))
                 return dict(args=[rc, "y", rev])
             c.scenario(f"ties-{'-'.join(str(int(k)) for k in keys)}-{'desc' if rev else 'asc'}", pre_t)
     c.requires("rect(self)")
@@ -460,4 +460,26 @@ def _(c):
     c.scenario("other-keys-than-the-earlier-collector", pre)
     c.ensures("list(self._columns) == ['r', 's'] and rowsof(self) == [(old(values['r']), old(values['s']))]", "columns-created-from-this-row-only")
     c.ensures("list(first._columns) == ['p', 'q'] and len(rowsof(first)) == 1", "earlier-collector-untouched")
+    c.no_raise()
+
+
+# ---- sorting again: every call sorts by what it is asked for, whatever the collector was sorted by before ---------------------------------
+@contract(RC + ".sort", "C20", name="RowCollector.sort[after-an-earlier-sort]")
+def _(c):
+    c.bound = BOUND
+    for first_rev, rev in ((False, True), (True, False), (False, False)):
+        def pre(b, first_rev=first_rev, rev=rev):
+            rc = collector(b, 3)
+            b.call(b.getattr(rc, "sort"), "y", first_rev)
+            return dict(args=[rc, "y", rev])
+        c.scenario(f"{'desc' if first_rev else 'asc'}-then-{'desc' if rev else 'asc'}", pre)
+
+    def pre_other(b):
+        rc = collector(b, 3)
+        b.call(b.getattr(rc, "sort"), "x", False)
+        return dict(args=[rc, "y", False])
+    c.scenario("by-x-then-by-y", pre_other)
+    c.requires("rect(self)")
+    c.ensures("all([ (rowsof(self)[i][1] >= rowsof(self)[i+1][1]) if reverse else (rowsof(self)[i][1] <= rowsof(self)[i+1][1]) for i in range(len(rowsof(self)) - 1)])", "sorted-by-column-in-the-requested-direction")
+    c.ensures("len(rowsof(self)) == len(old(rowsof(self))) and all([count_row(rowsof(self), r) == count_row(old(rowsof(self)), r) for r in old(rowsof(self))])", "multiset-of-rows-preserved")
     c.no_raise()
